@@ -12,6 +12,16 @@ pub fn verif_dir() -> String {
     std::env::var("VERIF_DIR").unwrap_or_else(|_| "/verif".to_string())
 }
 
+/// where evidence and replay files are written (default: the verif dir itself)
+pub fn out_dir() -> String {
+    std::env::var("VERIF_OUT").unwrap_or_else(|_| verif_dir())
+}
+
+/// cargo target dir holding the profile builds of vcheck
+pub fn target_dir() -> String {
+    std::env::var("VERIF_TARGET").unwrap_or_else(|_| format!("{}/harness/target", verif_dir()))
+}
+
 #[derive(Clone, Debug)]
 pub struct Outcome {
     pub nontrivial: bool,
@@ -209,10 +219,10 @@ impl Run {
     /// Finish: write evidence, print verdict lines, return the exit code.
     pub fn finish(mut self) -> i32 {
         let wall = self.started.elapsed().as_secs_f64();
-        let _ = std::fs::create_dir_all(format!("{}/evidence/replay", verif_dir()));
+        let _ = std::fs::create_dir_all(format!("{}/evidence/replay", out_dir()));
         let mut replay_paths = vec![];
         for (i, v) in self.violations.iter().enumerate() {
-            let path = format!("{}/evidence/replay/{}-{}-{}-{}.json", verif_dir(), self.prop, self.tier, self.seed, i);
+            let path = format!("{}/evidence/replay/{}-{}-{}-{}.json", out_dir(), self.prop, self.tier, self.seed, i);
             let doc = json!({
                 "property": self.prop, "tier": self.tier, "seed": self.seed,
                 "case": v.case, "message": v.failure.msg, "signature": v.failure.signature, "detail": v.failure.detail,
@@ -252,7 +262,7 @@ impl Run {
             "wall_s": wall,
             "violations": self.violations.len(),
         });
-        let evp = format!("{}/evidence/{}.json", verif_dir(), self.prop);
+        let evp = format!("{}/evidence/{}.json", out_dir(), self.prop);
         std::fs::write(&evp, serde_json::to_string_pretty(&ev).unwrap()).expect("write evidence");
         for k in &self.known {
             let n = self.stats.excluded_known.get(&k.signature).copied().unwrap_or(0);
